@@ -35,8 +35,22 @@ How the obligations are stated (so that they do not depend on one spelling of th
                `extend(self.process.iter().map(..))` / `push`) is the chain of its rows, so a loop over it is unrolled
                like a loop over a literal table; a Vec mutated in any way that is not an exact, once-executed append
                dominating all its readers is opaque (the writes through it are then not recognised => alarm).
+               A Vec that is *planned* first and executed afterwards is the collection it was planned from: a Vec created
+               empty and filled by exactly one push per iteration of one loop that every reader sees only after it ran to
+               exhaustion is `collect(map(<iterated collection>, <loop body>))` (GrowSlicer._loop_built), a private helper
+               that returns such a Vec or a collected pipeline is transparent, so the loop / try_for_each over the plan is
+               unrolled into "for every entry of self.entries" with the planned (file name, value) substituted; `is_empty()`
+               / `len()` of such a plan is that of self.entries.  A continue / break / filter / second push / any other
+               in-place mutation (pop, truncate, retain, sort ..) keeps the Vec opaque => UNPROVEN, never silently OK.
+               Having left an earlier loop by exhaustion is not a condition (H.loop_ran_out) unless that loop can also be
+               left with the function succeeding.  A local closure called by name is entered like a private helper
+               (H.EffectsX), `cond.then(|| effect)` is guarded by cond (H.guards_of).  Owned / borrowed copies of the raw
+               bytes (`as_bytes().to_vec()`) are the raw bytes.  Obligations on values that are not modelled are UNPROVEN.
   reader side  (rules/C03_helpers.py) the scope table on value normal forms (success payloads, iterator algebra for maps
-               collected from a pipeline, maps filled by a private helper); the per-file reads as effects with guards_of;
+               collected from a pipeline, maps filled by a private helper; H.stored: `?` / unwrap_or_default / map /
+               `is_dir().then(|| read(dir)).transpose()` / if-else helpers returning Ok(Some(..)) | Ok(None) around the
+               stored read are transparent — whether the read happens is judged on the guards of the READ_ENV_DIR effect,
+               where the receiver of `bool::then` counts as a guard); the per-file reads as effects with guards_of;
                the extension table / name / value by evaluating the reader's MIR once per extension scenario
                (`Path::extension` = None | Some(lit) | Some(unknown) | Some(non-UTF-8)) and observing what reaches the
                delta insert — nested `match`, a private `from_extension` helper, `map_or` + `?` in a closure, `zip`,
@@ -52,9 +66,12 @@ How the obligations are stated (so that they do not depend on one spelling of th
 """
 from . import layer_env_common as L
 from . import C03_helpers as H
-from .lib.effects import Effects, MUTATING, guards_of
+from .lib.effects import MUTATING
 from .lib.paths import strip, LayerPaths
 from .lib.value import vstr, walk, canon
+
+Effects = H.EffectsX        # lib Effects + local closures called by name are entered like private helpers
+guards_of = H.guards_of      # lib guards_of + the receiver of `cond.then(|| ..)` as a guard of what the closure does
 
 SPEC_SCOPES = {'all': ('env',), 'build': ('env.build',), 'launch': ('env.launch',), 'process[*]': ('env.launch', '<key>')}
 SPEC_SUFFIX = {'Append': '.append', 'Default': '.default', 'Delimiter': '.delim', 'Override': '.override', 'Prepend': '.prepend'}
@@ -80,7 +97,8 @@ def run(ctx, rep):
     slw = H.GrowSlicer(prog)
     E = Effects(prog, slw)
     # ---- R1 ------------------------------------------------------------------------------------
-    wf, wt, wcalls = L.writer_scope_table(prog, slw)
+    with H.closure_calls_expanded():
+        wf, wt, wcalls = L.writer_scope_table(prog, slw)
     rf, rt, rdetail = H.reader_scope_table(prog, sl)
     rep.analysed(wf)
     rep.analysed(rf)
@@ -92,10 +110,15 @@ def run(ctx, rep):
     for e, scope, cs, _, pathv in wcalls:
         if scope is None or cs is None:
             rep.unproven('R1', 'writer/unrecognised-write', e.where(), 'file write whose delta / directory is not recognised: %s (%s)' % (vstr(pathv)[:100], e.via()))
+    unrecognised = [r for r in wcalls if r[1] is None or r[2] is None]
     for scope, want in SPEC_SCOPES.items():
         got = wt.get(scope)
-        rep.check(got == want, 'R1', 'writer/' + scope, wwhere, 'scope %s is written to %s' % (scope, '/'.join(want)),
-                  'writer persists scope %s in %s, the spec says %s' % (scope, got, '/'.join(want)))
+        if got is None and unrecognised:
+            # no recognised write for this scope while there are writes whose delta / directory is not recognised: undecided
+            rep.unproven('R1', 'writer/' + scope, wwhere, 'no recognised file write persists scope %s (%d file write(s) not recognised)' % (scope, len(unrecognised)))
+        else:
+            rep.check(got == want, 'R1', 'writer/' + scope, wwhere, 'scope %s is written to %s' % (scope, '/'.join(want)),
+                      'writer persists scope %s in %s, the spec says %s' % (scope, got, '/'.join(want)))
         gotr = rt.get(scope)
         if scope in wt and scope not in rt:
             rep.violated('R1', 'reader/' + scope, rwhere,
@@ -124,7 +147,8 @@ def run(ctx, rep):
                       'guarded by a file-type test: reading back a written per-process environment fails with EISDIR' % nested,
                       {'nested_scopes': nested, 'via': e.via()})
     # ---- R2 ------------------------------------------------------------------------------------
-    wd, ws, winfo = L.writer_suffix_table(prog, slw)
+    with H.closure_calls_expanded():
+        wd, ws, winfo = L.writer_suffix_table(prog, slw)
     hd, rs, rinfo = H.reader_behaviour(prog, sl)
     rep.analysed(wd)
     wdw = '%s:%d' % (wd.file, wd.line)
@@ -146,9 +170,13 @@ def run(ctx, rep):
             rep.unproven('R2', subject, hdw, 'not decided: %s' % (rs.get(label),))
         else:
             rep.check(ok, 'R2', subject, hdw, ok_msg, bad_msg)
+    wshape_odd = winfo.get('suffix_pushes') != 1 or winfo.get('odd')
     for v in SPEC_SUFFIX:
-        rep.check(ws.get(v) == SPEC_SUFFIX[v], 'R2', 'writer/' + v, wdw, '%s -> %s' % (v, SPEC_SUFFIX[v]),
-                  'writer uses suffix %r for %s, spec says %r' % (ws.get(v), v, SPEC_SUFFIX[v]))
+        if ws.get(v) is None and wshape_odd:
+            rep.unproven('R2', 'writer/' + v, wdw, 'suffix of %s not decided: the file-name construction is not recognised' % v)
+        else:
+            rep.check(ws.get(v) == SPEC_SUFFIX[v], 'R2', 'writer/' + v, wdw, '%s -> %s' % (v, SPEC_SUFFIX[v]),
+                      'writer uses suffix %r for %s, spec says %r' % (ws.get(v), v, SPEC_SUFFIX[v]))
         key = SPEC_SUFFIX[v][1:]
         rcheck(key, rs.get(key) == v, 'reader/' + v, '"%s" -> %s' % (key, v),
                'reader maps extension %r to %s, expected %s' % (key, rs.get(key), v))
@@ -161,8 +189,11 @@ def run(ctx, rep):
     rep.check(not extra, 'R2', 'reader/extra', hdw, 'reader accepts no further extensions', 'reader accepts undefined extensions %s' % extra)
     # the joined file name is <variable name> followed by <suffix>, nothing else
     pc = winfo.get('push_call')
-    rep.check(winfo.get('name_parts') == ['NAME', 'SUFFIX'], 'R2', 'writer/file-name', pc.where() if pc else wdw, 'file name = variable name + suffix',
-              'the env file name is built as %s, expected [NAME, SUFFIX]' % winfo.get('name_parts'))
+    if winfo.get('name_parts') != ['NAME', 'SUFFIX'] and (not winfo.get('name_parts') or any(('vec-mutated' in x or x.startswith('?<')) for x in winfo['name_parts'])):
+        rep.unproven('R2', 'writer/file-name', pc.where() if pc else wdw, 'the env file name is not decided (built from a value that is not modelled): %s' % winfo.get('name_parts'))
+    else:
+        rep.check(winfo.get('name_parts') == ['NAME', 'SUFFIX'], 'R2', 'writer/file-name', pc.where() if pc else wdw, 'file name = variable name + suffix',
+                  'the env file name is built as %s, expected [NAME, SUFFIX]' % winfo.get('name_parts'))
     # ---- R3 ------------------------------------------------------------------------------------
     # stated on the interprocedural effects of the per-directory writer (removal / creation / writes may sit in its body,
     # in a private helper, or in a closure handed to try_for_each): each effect is located in the writer's CFG by the
@@ -177,7 +208,7 @@ def run(ctx, rep):
     if len(rm) != 1:
         rep.violated('R3', 'dir-writer/remove', wdw, 'the per-directory writer does not remove its directory (found %d remove_dir_all on the path)' % len(rm))
     else:
-        gs = [g for g in guards_of(E, rm[0]) if not (g[0].kind == 'variant' and g[0].enum == 'std::ops::ControlFlow')]
+        gs = [g for g in guards_of(E, rm[0]) if not (g[0].kind == 'variant' and g[0].enum == 'std::ops::ControlFlow') and not H.loop_ran_out(E, g[0], g[2])]
         exists = lambda val, oc: (oc is True and val[0] == 'call' and len(val[2]) == 1 and root(strip(val[2][0])) and
                                   val[1] in ('std::path::Path::exists', 'std::path::Path::try_exists', 'std::path::Path::is_dir'))
         only_exists = not gs or (len(gs) == 1 and gs[0][0].kind == 'bool' and any(exists(strip(val), oc) for val, oc in gs[0][1]))
@@ -195,7 +226,8 @@ def run(ctx, rep):
                           '%s can happen before the old directory is removed' % e.call.name)
     # the per-directory writer runs on every base scope directory on every successful write (also when the new
     # delta is empty), and on env.launch before the per-process directories inside it
-    md = L.writer_must_dirs(prog, slw)
+    with H.closure_calls_expanded():
+        md = L.writer_must_dirs(prog, slw)
     base_must = [cs for cs, fa in md if not fa]
     for scope in ('all', 'build', 'launch'):
         want = SPEC_SCOPES[scope]
@@ -219,11 +251,18 @@ def run(ctx, rep):
             continue
         dv = strip(e.args[1]) if e.args and len(e.args) > 1 else ('unknown', 'no data attached to the created file')
         ok = False
-        if dv[0] == 'call' and dv[1].endswith('as_bytes') and len(dv[2]) == 1:
+        # (an owned / borrowed copy of the byte string is the same bytes: `as_bytes().to_vec()`, `into_vec()`, `as_slice()`)
+        for _ in range(4):
+            if dv[0] == 'call' and len(dv[2]) == 1 and dv[1] in BYTE_COPIES:
+                dv = strip(dv[2][0])
+        if dv[0] == 'call' and dv[1].endswith(RAW_BYTES) and len(dv[2]) == 1:
             coll, proj = L.loop_element(dv[2][0])
             ok = coll is not None and L.self_field(wd, coll) == 'entries' and proj == ('1',)
-        rep.check(ok, 'R4', 'writer/data', e.where(), 'file content = as_bytes(map value), nothing else',
-                  'written bytes are not the raw value: ' + vstr(dv)[:120])
+        if not ok and H.opaque(dv):
+            rep.unproven('R4', 'writer/data', e.where(), 'written bytes not decided (taken from a value that is not modelled): ' + vstr(dv)[:120])
+        else:
+            rep.check(ok, 'R4', 'writer/data', e.where(), 'file content = as_bytes(map value), nothing else',
+                      'written bytes are not the raw value: ' + vstr(dv)[:120])
         cs = L.comps(e.path, root) if e.path is not None else None
         if cs is None and e.path is not None:
             cs = L.comps(slw.inline_deep(e.path), root)
@@ -269,6 +308,9 @@ def run(ctx, rep):
     new_obligations(ctx, rep, prog, sl, slw, E, wd, wf, rf, weffs, nested, root)
 
 
+BYTE_COPIES = ('std::slice::<impl [T]>::to_vec', 'std::vec::Vec::<T, A>::as_slice', 'std::vec::Vec::<T>::from', 'std::slice::<impl [T]>::to_owned',
+               'std::vec::Vec::<T, A>::into_boxed_slice')
+RAW_BYTES = ('OsStrExt::as_bytes', 'OsStringExt::into_vec', 'std::ffi::OsStr::as_encoded_bytes', 'std::ffi::OsString::into_encoded_bytes')
 DIR_TESTS = ('std::path::Path::is_dir', 'std::fs::FileType::is_dir', 'std::fs::Metadata::is_dir')
 SCOPE_DIR_TESTS = ('std::path::Path::is_dir', 'std::path::Path::exists', 'std::path::Path::try_exists')
 
@@ -312,9 +354,13 @@ def new_obligations(ctx, rep, prog, sl, slw, E, wd, wf, rf, weffs, nested, root)
                          % ('; '.join(unknown) or 'no iteration over self.entries around it'))
         else:
             rep.holds('R6', 'writer/every-entry', e.where(), 'one file is written for every entry of self.entries (no filter, no early exit)')
-        gp, variants = H.write_guard_problems(E, e, wd)
-        rep.check(not gp, 'R6', 'writer/entry-guards', e.where(), 'the write of an entry is conditional on nothing but earlier successes',
-                  'the write of an entry is conditional on %s: entries for which it does not hold are silently not persisted' % gp)
+        gu = []
+        gp, variants = H.write_guard_problems(E, e, wd, gu)
+        if gu and not gp:
+            rep.unproven('R6', 'writer/entry-guards', e.where(), 'the write of an entry is conditional on %s, a test of a value that is not modelled' % gu)
+        else:
+            rep.check(not gp, 'R6', 'writer/entry-guards', e.where(), 'the write of an entry is conditional on nothing but earlier successes',
+                      'the write of an entry is conditional on %s: entries for which it does not hold are silently not persisted' % (gp + gu))
         covered |= (all_variants if variants is None else variants)
     if not writes:
         rep.unproven('R6', 'writer/every-entry', wdw, 'no file write among the effects of the per-directory writer')
